@@ -202,7 +202,8 @@ def run_config(cfg, res):
           if not ok:
             kind = 'within-horizon' if not rec['was_forgotten'] else 'after-expiry'
             viol.append(('wrong-value/%s' % kind, 'aggregate %r interval %r emitted %r; %s over the values buffered for it %r is %r (values since last emission %r)' % (
-              m, interval, value, rec['method'], allv, exp, rec['since'])))
+              m, interval, value, rec['method'], allv if len(allv) <= 16 else allv[:12] + ['... %d values' % len(allv)], exp,
+              rec['since'] if len(rec['since']) <= 16 else rec['since'][:8] + ['...'])))
           rec['since'] = []
           rec['last_emit'] = t
         if freq is None:
@@ -363,6 +364,19 @@ def run_config(cfg, res):
     res.count('replay_sequences')
     res.case(repr(evs), nontrivial=(nemit >= 1 and late >= 1))
     report(viol, FIXED_RULES, evs, 'replay')
+
+  # ---- big intervals: thousands of values in one interval, every aggregation method over the same values (percentile ranks
+  # that are whole numbers and ranks that are not)
+  from vlib.refs import aggrules as _ar
+  bulk_text = ''.join('bulk.%s (10) = %s big.*.v\n' % (m, m) for m in _ar.METHODS)
+  rules = load_rules(bulk_text)
+  for nvals in ((1001, 1002) if cfg['tier'] == 'quick' else (1000, 1001, 1002, 2001, 2500, 4001)):
+    evs = [('arrive', 'big.h%d.v' % (k % 7), 0, r.randrange(-4000, 4000) * 0.25) for k in range(nvals)] + [('adv', 10), ('adv', 10)]
+    viol, nemit, late = run_sequence(rules, evs, 'bulk')
+    res.count('sequences_executed')
+    res.count('bulk_interval_sequences')
+    res.case(('bulk', nvals), nontrivial=nemit >= 1)
+    report(viol, bulk_text, evs[:6] + [('... %d values' % nvals,)], 'bulk')
 
   # ---- random rule sets and streams
   from checks.c16_rules import names_for
